@@ -356,6 +356,23 @@ class Builder(object):
                             tr["publish"].append(["dv", ["lit", {"k_" + name: "p:%s.%d.d" % (name, ti)}]])
         if g["dict_republish"]:
             self.extra_vars.append(("dv", {"k_init": "i:dv"}))
+        # the item list / concurrency of a with-items task may be (re)published on the way to it
+        if g["publish"]:
+            for name in list(self.tasks.keys()):
+                t = self.tasks[name]
+                w = t.get("with")
+                if not w or r.random() < 0.5:
+                    continue
+                inbound = [(sn, tr) for sn, st in self.tasks.items() for tr in st["next"] if name in tr["do"]]
+                if not inbound:
+                    continue
+                sn, tr = inbound[r.randrange(len(inbound))]
+                cc = w.get("concurrency")
+                if lang._is_node(cc) and cc[0] == "ctx" and r.random() < 0.7:
+                    tr["publish"].append([cc[1], ["lit", r.choice([1, 2, 3, 4])]])
+                if w["items"][0] == "ctx" and r.random() < 0.4:
+                    n = r.choice([0, 1, 2, 3, 4])
+                    tr["publish"].append([w["items"][1], ["lit", ["j%s_%d" % (name, j) for j in range(n)]]])
         # conditions reading the context
         if g["cond_ctx"]:
             for name in list(self.tasks.keys()):
